@@ -41,16 +41,95 @@ theorem vCopySt_add (s : St) (j k : Nat) : core (vCopySt (core (vCopySt s j)) k)
   unfold two64
   omega
 
+/-- the positions are ordered and at most one block is buffered -/
+structure VPos (s : St) : Prop where
+  fl : s.lastFlushPos ≤ s.lastProcessedPos
+  lp : s.lastProcessedPos ≤ s.inputPos
+  ub : s.inputPos - s.lastProcessedPos ≤ s.blockSize
+
+theorem VPos.unprocessed {s : St} (h : VPos s) (hlt : s.inputPos < two64) : s.unprocessed = s.inputPos - s.lastProcessedPos :=
+  wsub64_eq h.lp hlt
+
+theorem encPrelude_ncat_pos {x x' : St} {w w' : Writer} {hdr hdr' bytes : Nat} (hcat : x.params.catable = false)
+    (hx : encPrelude x w hdr bytes = .ok (x', w', hdr')) :
+    x'.lastFlushPos = x.lastFlushPos ∧ x'.lastProcessedPos = x.lastProcessedPos ∧ x'.inputPos = x.inputPos
+    ∧ x'.params = x.params := by
+  unfold encPrelude at hx
+  split at hx
+  · simp only [Out.ok.injEq, Prod.mk.injEq] at hx
+    obtain ⟨rfl, _, _⟩ := hx
+    exact ⟨rfl, rfl, rfl, rfl⟩
+  · simp only [hcat, Bool.not_false, ↓reduceIte, Out.ok.injEq, Prod.mk.injEq] at hx
+    obtain ⟨rfl, _, _⟩ := hx
+    exact ⟨rfl, rfl, rfl, rfl⟩
+
+/-- where the payload part of `encode_data` leaves the positions -/
+theorem encPayloadPure_pos (s : St) (ans : Ans) (w0 w : Writer) (hdr : Nat) (il ff : Bool)
+    (h1 : s.lastFlushPos ≤ s.lastProcessedPos) (h2 : s.lastProcessedPos ≤ s.inputPos) :
+    (encPayloadPure s ans w0 w hdr il ff).lastFlushPos ≤ (encPayloadPure s ans w0 w hdr il ff).lastProcessedPos
+    ∧ (encPayloadPure s ans w0 w hdr il ff).lastProcessedPos ≤ s.inputPos
+    ∧ (encPayloadPure s ans w0 w hdr il ff).inputPos = s.inputPos
+    ∧ (s.unprocessed ≠ 0 → s.inputPos < two64 → (encPayloadPure s ans w0 w hdr il ff).lastProcessedPos = s.inputPos) := by
+  unfold encPayloadPure
+  simp only []
+  split
+  · split
+    · rename_i hz
+      exact ⟨h1, h2, rfl, fun hne _ => absurd hz.1 hne⟩
+    · exact ⟨Nat.le_refl _, Nat.le_refl _, rfl, fun _ _ => rfl⟩
+  · split
+    · exact ⟨Nat.le_trans h1 h2, Nat.le_refl _, rfl, fun _ _ => rfl⟩
+    · split
+      · rename_i hz
+        refine ⟨h1, h2, rfl, fun hne hlt => ?_⟩
+        have : s.lastProcessedPos = s.inputPos := by have := hz.2; omega
+        exact this
+      · exact ⟨Nat.le_refl _, Nat.le_refl _, rfl, fun _ _ => rfl⟩
+
+theorem uEnc_pos {o : Oracle} {s s' : St} {site : Nat} {il ff : Bool} {p : Bytes} (hcat : s.params.catable = false)
+    (hP : VPos s) (h : uEnc o s site il ff = some (s', p)) :
+    s'.lastFlushPos ≤ s'.lastProcessedPos ∧ s'.lastProcessedPos ≤ s.inputPos ∧ s'.inputPos = s.inputPos
+    ∧ (s.unprocessed ≠ 0 → s.inputPos < two64 → s'.lastProcessedPos = s.inputPos) := by
+  unfold uEnc encPre3 at h
+  cases hr : encPrelude (encMagic (encStart s il) s.carry).1 (encMagic (encStart s il) s.carry).2.1
+      (encMagic (encStart s il) s.carry).2.2 (s.unprocessed % two32) with
+  | ok r =>
+    obtain ⟨a2, w, hdr⟩ := r
+    rw [hr] at h
+    simp only [uEncOf, Option.some.injEq, Prod.mk.injEq] at h
+    obtain ⟨rfl, _⟩ := h
+    obtain ⟨m1, m2, m3, _⟩ := encMagic_frame (encStart s il) s.carry
+    rw [St.frame_eq_iff] at m1
+    have hcm : (encMagic (encStart s il) s.carry).1.params.catable = false := by rw [m1.1]; exact hcat
+    obtain ⟨q1, q2, q3, _⟩ := encPrelude_ncat_pos hcm hr
+    have e1 : a2.lastFlushPos = s.lastFlushPos := q1.trans m2
+    have e2 : a2.lastProcessedPos = s.lastProcessedPos := q2.trans m3
+    have e3 : a2.inputPos = s.inputPos := q3.trans m1.2.1
+    have eu : a2.unprocessed = s.unprocessed := by unfold St.unprocessed; rw [e2, e3]
+    obtain ⟨r1, r2, r3, r4⟩ := encPayloadPure_pos a2 (o s.nEnc (reqOf s site il ff)) s.carry w hdr il ff
+      (by rw [e1, e2]; exact hP.fl) (by rw [e2, e3]; exact hP.lp)
+    refine ⟨r1, by rw [← e3]; exact r2, r3.trans e3, fun hne hlt => ?_⟩
+    rw [← e3]
+    exact r4 (by rw [eu]; exact hne) (by rw [e3]; exact hlt)
+  | panic => rw [hr] at h; simp [uEncOf] at h
+  | fuel => rw [hr] at h; simp [uEncOf] at h
+
+theorem rbs_def (s : St) : remainingInputBlockSize s = if s.unprocessed ≥ s.blockSize then 0 else s.blockSize - s.unprocessed := rfl
+
+/-- the end of `c1` is NOT an input-block boundary -/
+def NotBoundary (s : St) (c1 : Bytes) : Prop := (s.inputPos - s.lastProcessedPos + c1.length) % s.blockSize ≠ 0
+
 /-- what the merge argument needs of the state at the start of a PROCESS request -/
 structure VStart (s : St) (inp : Bytes) : Prop where
   good : VGood ⟨s, [], inp, inp.length⟩
   proc : s.streamState = .processing
+  pos : VPos s
 
 theorem VStart.toGood {s : St} {inp : Bytes} (h : VStart s inp) (out : Bytes) : VGood ⟨s, out, inp, inp.length⟩ :=
   ⟨h.good.init, h.good.nf, h.good.ncat, h.good.hint, h.good.bs, h.good.nowrap, rfl⟩
 
-theorem VStart.of_good {a : Abs} (hG : VGood a) (hp : a.s.streamState = .processing) : VStart a.s a.input :=
-  ⟨⟨hG.init, hG.nf, hG.ncat, hG.hint, hG.bs, hG.nowrap, rfl⟩, hp⟩
+theorem VStart.of_good {a : Abs} (hG : VGood a) (hp : a.s.streamState = .processing) (hpos : VPos a.s) : VStart a.s a.input :=
+  ⟨⟨hG.init, hG.nf, hG.ncat, hG.hint, hG.bs, hG.nowrap, rfl⟩, hp, hpos⟩
 
 theorem noflush_of_processing {a b : Abs} (h : a.s.streamState = .processing) : ¬ FlushStep a b := by
   intro hf; rw [hf.1] at h; cases h
@@ -60,22 +139,23 @@ with input `c1`, run to its end `b1` (all input consumed), followed by a request
 `c2` that is itself a PROCESS or has at least one byte: the single request `op2` with input
 `c1 ++ c2` reaches, by flush-free steps, the configuration `C` in which the second request starts —
 or the configuration one (copy) step behind `C`. -/
-theorem vmerge {o : Oracle} {op2 : Nat} {c2 : Bytes} (hsafe : op2 = 0 ∨ c2 ≠ []) :
+theorem vmerge {o : Oracle} {op2 : Nat} {c2 : Bytes} :
     ∀ (n : Nat) (s : St) (out c1 : Bytes) (b1 : Abs),
       VPath o 0 ⟨s, out, c1, c1.length⟩ n b1 → vstep o 0 b1 = none → b1.input = [] → VStart s (c1 ++ c2) →
+      (op2 = 0 ∨ c2 ≠ [] ∨ NotBoundary s c1) →
       ∃ m x, VPath o op2 ⟨s, out, c1 ++ c2, (c1 ++ c2).length⟩ m x ∧
         (x = ⟨b1.s, b1.out, c2, c2.length⟩ ∨
          (vstep o op2 ⟨b1.s, b1.out, c2, c2.length⟩ = some x ∧ ¬ FlushStep ⟨b1.s, b1.out, c2, c2.length⟩ x)) := by
   intro n
   induction n with
   | zero =>
-    intro s out c1 b1 hp _ hin _
+    intro s out c1 b1 hp _ hin _ _
     cases hp
     have hc1 : c1 = [] := hin
     subst hc1
     exact ⟨0, _, .nil _, Or.inl (by simp)⟩
   | succ n ih =>
-    intro s out c1 b1 hp hterm hin hS
+    intro s out c1 b1 hp hterm hin hS hsafe
     cases hp with
     | @cons _ a1 _ _ hs hnf hrest =>
     have hG := hS.toGood out
@@ -109,17 +189,54 @@ theorem vmerge {o : Oracle} {op2 : Nat} {c2 : Bytes} (hsafe : op2 = 0 ∨ c2 ≠
         have hk : min (remainingInputBlockSize s) (c1 ++ c2).length = remainingInputBlockSize s := Nat.min_eq_left (by rw [hlen]; omega)
         rw [hk1] at hs
         rw [hk] at hstepM
-        generalize remainingInputBlockSize s = r at *
+        generalize hrs : remainingInputBlockSize s = r at *
         subst hs
         have hdrop : (c1 ++ c2).drop r = c1.drop r ++ c2 := List.drop_append_of_le_length hr
         have hl1 : c1.length - r = (c1.drop r).length := by rw [List.length_drop]
         have hl2 : (c1 ++ c2).length - r = (c1.drop r ++ c2).length := by rw [← hdrop, List.length_drop]
         rw [hdrop, hl2] at hstepM
         rw [hl1] at hrest hnf
+        have hipw : s.inputPos + c1.length < two64 := by
+          have hnw : s.inputPos + (c1 ++ c2).length < two64 := hG.nowrap
+          rw [hlen] at hnw
+          omega
+        have hu := hS.pos.unprocessed (by omega : s.inputPos < two64)
+        have hrdef : r = s.blockSize - (s.inputPos - s.lastProcessedPos) ∧ s.inputPos - s.lastProcessedPos < s.blockSize := by
+          have hr0 := hc.1
+          rw [← hrs] at hr0 ⊢
+          rw [rbs_def, hu] at hr0 ⊢
+          split at hr0
+          · exact absurd rfl hr0
+          · rename_i hlt
+            rw [if_neg hlt]
+            exact ⟨rfl, by omega⟩
+        have hip' : (core (vCopySt s r)).inputPos = s.inputPos + r := by
+          show (s.inputPos + r) % two64 = s.inputPos + r
+          exact Nat.mod_eq_of_lt (by omega)
+        have hlp' : (core (vCopySt s r)).lastProcessedPos = s.lastProcessedPos := rfl
+        have hpos1 : VPos (core (vCopySt s r)) := by
+          refine ⟨hS.pos.fl, ?_, ?_⟩
+          · rw [hip', hlp']; have := hS.pos.lp; omega
+          · rw [hip', hlp']
+            show s.inputPos + r - s.lastProcessedPos ≤ s.blockSize
+            have := hS.pos.lp
+            omega
         have hS1 : VStart (core (vCopySt s r)) (c1.drop r ++ c2) := by
           have g := vstep_good hG hstepM
-          exact ⟨⟨g.init, g.nf, g.ncat, g.hint, g.bs, g.nowrap, rfl⟩, hS.proc⟩
-        obtain ⟨m, x, hpx, hx⟩ := ih _ _ _ _ hrest hterm hin hS1
+          exact ⟨⟨g.init, g.nf, g.ncat, g.hint, g.bs, g.nowrap, rfl⟩, hS.proc, hpos1⟩
+        have hsafe1 : op2 = 0 ∨ c2 ≠ [] ∨ NotBoundary (core (vCopySt s r)) (c1.drop r) := by
+          rcases hsafe with h | h | h
+          · exact Or.inl h
+          · exact Or.inr (Or.inl h)
+          · refine Or.inr (Or.inr ?_)
+            unfold NotBoundary at h ⊢
+            rw [hip', hlp', List.length_drop]
+            have hB : (core (vCopySt s r)).blockSize = s.blockSize := rfl
+            rw [hB]
+            have := hS.pos.lp
+            have e : s.inputPos + r - s.lastProcessedPos + (c1.length - r) = s.inputPos - s.lastProcessedPos + c1.length := by omega
+            rw [e]; exact h
+        obtain ⟨m, x, hpx, hx⟩ := ih _ _ _ _ hrest hterm hin hS1 hsafe1
         exact ⟨m + 1, x, .cons hstepM (noflush_of_processing hS.proc) hpx, hx⟩
       · -- `c1` ends inside the block: the PROCESS request stops there, the merged request copies on
         have hr' : c1.length < remainingInputBlockSize s := by omega
@@ -186,17 +303,34 @@ theorem vmerge {o : Oracle} {op2 : Nat} {c2 : Bytes} (hsafe : op2 = 0 ∨ c2 ≠
           rcases he.2 with h0 | h0
           · exact h0
           · exact absurd rfl h0
-        obtain ⟨s', p, hu, ha1, hf⟩ := uEncStep_good (a := ⟨s, out, c1, c1.length⟩) hG.hint hs
-        simp only at hu ha1
+        obtain ⟨s', p, hu', ha1, hf⟩ := uEncStep_good (a := ⟨s, out, c1, c1.length⟩) hG.hint hs
+        simp only at hu' ha1
         have hfl : ∀ k : Nat, decide (k = 0 ∧ (0 : Nat) = 2) = false ∧ decide (k = 0 ∧ (0 : Nat) = 1) = false := by
           intro k; simp
-        rw [(hfl c1.length).1, (hfl c1.length).2] at hu ha1
+        rw [(hfl c1.length).1, (hfl c1.length).2] at hu' ha1
+        have hipw : s.inputPos < two64 := by
+          have hnw : s.inputPos + (c1 ++ c2).length < two64 := hG.nowrap
+          omega
+        have hu := hS.pos.unprocessed hipw
+        have huB : s.inputPos - s.lastProcessedPos = s.blockSize := by
+          have hub := hS.pos.ub
+          rw [rbs_def, hu] at hr0
+          split at hr0
+          · omega
+          · have := blockSize_pos s; omega
         have hflM : decide ((c1 ++ c2).length = 0 ∧ op2 = 2) = false ∧ decide ((c1 ++ c2).length = 0 ∧ op2 = 1) = false := by
-          rcases hsafe with h0 | h0
+          rcases hsafe with h0 | h0 | h0
           · subst h0; simp
           · have : (c1 ++ c2).length ≠ 0 := by
               rw [hlen]; intro hh
               exact h0 (List.eq_nil_of_length_eq_zero (by omega))
+            exact ⟨decide_eq_false (fun hh => this hh.1), decide_eq_false (fun hh => this hh.1)⟩
+          · have : (c1 ++ c2).length ≠ 0 := by
+              rw [hlen]; intro hh
+              have hc10 : c1.length = 0 := by omega
+              unfold NotBoundary at h0
+              rw [huB, hc10, Nat.add_zero, Nat.mod_self] at h0
+              exact h0 rfl
             exact ⟨decide_eq_false (fun hh => this hh.1), decide_eq_false (fun hh => this hh.1)⟩
         have hncM : ¬ (remainingInputBlockSize s ≠ 0 ∧ (c1 ++ c2).length ≠ 0) := fun hh => hh.1 hr0
         have heM : s.streamState = .processing ∧ (remainingInputBlockSize s = 0 ∨ op2 ≠ 0) := ⟨hS.proc, Or.inl hr0⟩
@@ -205,17 +339,39 @@ theorem vmerge {o : Oracle} {op2 : Nat} {c2 : Bytes} (hsafe : op2 = 0 ∨ c2 ≠
           unfold vstep
           simp only [if_neg hi', if_neg hG.nf, if_neg hncM, if_neg hnpd, if_pos heM]
           unfold uEncStep
-          simp only [updateSizeHint_id hG.hint, hflM.1, hflM.2, hu, uEncOut]
+          simp only [updateSizeHint_id hG.hint, hflM.1, hflM.2, hu', uEncOut]
         subst ha1
+        have hmk : markAfterEncode s' false false = s' := by
+          unfold markAfterEncode; simp
+        obtain ⟨q1, q2, q3, q4⟩ := uEnc_pos hG.ncat hS.pos hu'
+        have hune : s.unprocessed ≠ 0 := by
+          rw [hu, huB]; exact Nat.pos_iff_ne_zero.mp (blockSize_pos s)
+        have hlpE : s'.lastProcessedPos = s.inputPos := q4 hune hipw
+        have hf' := hf
+        rw [St.frame_eq_iff] at hf'
+        have hBs : s'.blockSize = s.blockSize := blockSize_of_params hf'.1
+        have hpos1 : VPos (core (markAfterEncode s' false false)) := by
+          rw [hmk]
+          refine ⟨q1, by show s'.lastProcessedPos ≤ s'.inputPos; rw [q3]; exact q2, ?_⟩
+          show s'.inputPos - s'.lastProcessedPos ≤ s'.blockSize
+          rw [q3, hlpE, Nat.sub_self]; exact Nat.zero_le _
         have hS1 : VStart (core (markAfterEncode s' false false)) (c1 ++ c2) := by
           have g := vstep_good (hS.toGood out) hstepM
-          refine ⟨⟨g.init, g.nf, g.ncat, g.hint, g.bs, g.nowrap, rfl⟩, ?_⟩
-          rw [St.frame_eq_iff] at hf
+          refine ⟨⟨g.init, g.nf, g.ncat, g.hint, g.bs, g.nowrap, rfl⟩, ?_, hpos1⟩
           show (markAfterEncode s' false false).streamState = .processing
-          unfold markAfterEncode
-          simp only [Bool.false_eq_true, ↓reduceIte]
-          rw [hf.2.2.2.1]; exact hS.proc
-        obtain ⟨m, x, hpx, hx⟩ := ih _ _ _ _ hrest hterm hin hS1
+          rw [hmk, hf'.2.2.2.1]; exact hS.proc
+        have hsafe1 : op2 = 0 ∨ c2 ≠ [] ∨ NotBoundary (core (markAfterEncode s' false false)) c1 := by
+          rcases hsafe with h | h | h
+          · exact Or.inl h
+          · exact Or.inr (Or.inl h)
+          · refine Or.inr (Or.inr ?_)
+            unfold NotBoundary at h ⊢
+            rw [hmk]
+            show (s'.inputPos - s'.lastProcessedPos + c1.length) % s'.blockSize ≠ 0
+            rw [q3, hlpE, hBs, Nat.sub_self, Nat.zero_add]
+            rw [huB, Nat.add_mod_left] at h
+            exact h
+        obtain ⟨m, x, hpx, hx⟩ := ih _ _ _ _ hrest hterm hin hS1 hsafe1
         exact ⟨m + 1, x, .cons hstepM (noflush_of_processing hS.proc) hpx, hx⟩
       · rw [if_neg he] at hs
         have : ¬ (s.streamState = .flushRequested) := by rw [hS.proc]; simp
